@@ -10,6 +10,7 @@ specification Spec/DataValue; and the tables regenerated from the source
 import ZygoVerif.Model.PrintData
 import ZygoVerif.Model.EvalData
 import ZygoVerif.Model.LegacyReadPrint
+import ZygoVerif.Model.LegacyLexer
 import ZygoVerif.Spec.DataValue
 import ZygoVerif.Generated.ReadPrint
 import ZygoVerif.Generated.LexTables
@@ -166,7 +167,8 @@ def sameNumber : Sexp → Sexp → Prop
 the `rt` channel: impl vs `Spec.require`, and `Spec.mathValue`/`nearestF64` vs math/big): a
 spelling in a notation the property lists is read as exactly its mathematical value (or refused
 when that value does not fit the type); any other spelling is either not read as a number or
-read as exactly its value. False today for `-.5` (recorded finding `rt l 45.46.53`). -/
+read as exactly its value. (`-.5` was a recorded finding until repo fix C12-05:
+`neg_fraction_begins`, `neg_fraction_fixed`, `neg_fraction_counterexample`.) -/
 def LiteralValue : Prop :=
   ∀ s : List Char, match require s with
     | .must (some v) => ∃ x, readLiteral s = some x ∧ sameNumber x v
@@ -197,6 +199,38 @@ theorem literal_int_tokens (c : Char) (r : List Char) :
 
 example : isHexC 'f' = true ∧ Literal.numeralValue 16 ['f', 'F'] = some (.int 255) ∧
     Literal.numeralValue 2 ['1', '0', '1'] = some (.int 5) := ⟨by decide, by rfl, by rfl⟩
+
+/-- **`literal_value_partial`** (3), repo fix C12-05: where a signed number may start (after any
+rune of `canStartSignedNumberAfter`, e.g. the start of the text, a blank, `(`), `-.` followed by
+a digit — every digit, every lexer state ready for a new token — begins ONE atom `-.d`; the minus
+is not split off as a symbol. (What the atom then denotes is `FloatRegex` + `ParseFloat`:
+`neg_fraction_fixed` for instances, the `rt l` enumeration for all short spellings.) -/
+theorem neg_fraction_begins (T : List Token) (l d : Char) (hl : canStartSignedNumberAfter l = true) (hd : isDig d = true) :
+    Lex ⟨.normal, [], T, l⟩ ['-', '.', d] ⟨.normal, ['-', '.', d], T, d⟩ :=
+  lex_minus_dot_digit T l d hl hd
+
+example : canStartSignedNumberAfter '(' = true ∧ isDig '5' = true := by decide
+
+/-- the tokens of a text, by the lexer before fix C12-05 -/
+def legacyTokens (t : List Char) : List Token := (Legacy.Lexer.core (Legacy.Lexer.feed (.ok LexCore.init) t)).tokens
+
+/-- the recorded finding `rt l 45.46.53` on the pre-fix lexer: `-.5` was the symbol `-` followed
+by the float `.5` — and `(list -.5)` a list of two elements -/
+theorem neg_fraction_counterexample :
+    legacyTokens "-.5 ".toList = [⟨.symbol, ['-']⟩, ⟨.float, ".5".toList⟩] := by decide +kernel
+
+/-- repaired: `-.5` is one float token and reads as -0.5 (bits 0xbfe0000000000000), whole, in any
+pieces, inside a list; `-.25e` stays what it was (`FloatRegex` has no such form); `-.a` and `a-.5`
+(no sign position) are still split as before -/
+theorem neg_fraction_fixed :
+    (Legacy.Lexer.core (feed (.ok LexCore.init) "-.5 ".toList)).tokens = [⟨.float, "-.5".toList⟩] ∧
+    Props.C13.isOneFloat (parseChunks ["-.5".toList]) 0xbfe0000000000000 = true ∧
+    Props.C13.isOneFloat (parseChunks [['-'], ['.'], ['5']]) 0xbfe0000000000000 = true ∧
+    (Legacy.Lexer.core (feed (.ok LexCore.init) "(a -.5 -.a b-.5)".toList)).tokens =
+      [⟨.lparen, []⟩, ⟨.symbol, ['a']⟩, ⟨.float, "-.5".toList⟩, ⟨.symbol, ['-']⟩, ⟨.dotSymbol, ".a".toList⟩,
+       ⟨.symbol, ['b']⟩, ⟨.symbol, ['-']⟩, ⟨.float, ".5".toList⟩, ⟨.rparen, []⟩] ∧
+    legacyTokens "(a -.a b-.5)".toList = (Legacy.Lexer.core (feed (.ok LexCore.init) "(a -.a b-.5)".toList)).tokens := by
+  decide +kernel
 
 /-! ## 3. JSON-like values read back by evaluation -/
 
